@@ -630,7 +630,6 @@ func leqLen(g *core.Graph, info *types.Info, n *core.GNode, base, idx ast.Expr) 
 	return false
 }
 
-
 // inSortComparator: f is the comparator literal of sort.Slice(base, f) and idx is one of its parameters.
 func inSortComparator(p *core.Prog, f *core.Func, base, idx ast.Expr) bool {
 	if f.Lit == nil || f.Parent == nil {
